@@ -28,11 +28,11 @@ def tiMonthAbbr (text : List Char) (m : Nat) (alsoFull : Bool) (merid : Option (
 def tiWeekday (text : List Char) (idx : Nat) (merid : Option (List Char)) : TI :=
   { text := text, ty := 1, wk := some idx, merid := merid }
 
-def fieldTI (c : Comp) (ty tm td : List Char) (y m d : Nat) (pm pd : Bool) (mic : Option (List Char)) (dot : Bool) : TI :=
+def fieldTI (c : Comp) (ty tm td : List Char) (y m d : Nat) (pm pd : Bool) (mic : Comp → Option (List Char)) (dot : Bool) : TI :=
   match c with
-  | .year => tiYear4 ty y mic dot
-  | .month => tiSmall tm m pm mic dot
-  | .day => tiSmall td d pd mic dot
+  | .year => tiYear4 ty y (mic .year) dot
+  | .month => tiSmall tm m pm (mic .month) dot
+  | .day => tiSmall td d pd (mic .day) dot
 
 def allOrders : List (List Comp) :=
   [[.day, .month, .year], [.day, .year, .month], [.month, .day, .year], [.month, .year, .day], [.year, .day, .month], [.year, .month, .day]]
@@ -164,7 +164,7 @@ theorem initLoop_plain (st : PSettings) (toks : List TI) (hall : ∀ t ∈ toks,
             rw [(skipIndex_parseAlpha p p' t hstep).1, hsk]
         exact ih (i + 1) p' hsk' (by omega)
 
-theorem fieldTI_merid (c : Comp) (ty tm td : List Char) (y m d : Nat) (pm pd : Bool) (mic : Option (List Char)) (dot : Bool) :
+theorem fieldTI_merid (c : Comp) (ty tm td : List Char) (y m d : Nat) (pm pd : Bool) (mic : Comp → Option (List Char)) (dot : Bool) :
     PlainTok (fieldTI c ty tm td y m d pm pd mic dot) := by
   unfold PlainTok
   cases c <;> simp [fieldTI, tiSmall, tiYear4]
